@@ -54,6 +54,7 @@ func tText(c context, s []byte) (context, int) {
 			if !end {
 				ret.element = e
 			}
+			ret.element.partial = j == len(s)
 			return ret, j
 		}
 		k = j
@@ -91,6 +92,21 @@ var voidElements = map[string]bool{
 
 // tTag is the context transition function for the tag state.
 func tTag(c context, s []byte) (context, int) {
+	if c.element.partial && len(s) != 0 {
+		switch s[0] {
+		case ' ', '\t', '\n', '\f', '\r', '/', '>':
+			c.element.partial = false
+		default:
+			// e.g. `<s{{/* comment */}}cript>`: the pieces form one tag name in the output.
+			c.element.partial, c.element.continued = false, true
+			j, _ := eatTagName(s, 0)
+			if j == 0 {
+				j = 1
+			}
+			c.element.partial = j == len(s)
+			return c, j
+		}
+	}
 	// Find the attribute name.
 	i := eatWhiteSpace(s, 0)
 	if i == len(s) {
